@@ -1,7 +1,7 @@
 SPEC = {
     "claimed": False,
-    "gen": [],
-    "theorems": ["C13_agree", "C13_stored_agree", "C13_ghosts", "C13_error_no_advance",
+    "gen": ["storage"],
+    "theorems": ["C13_agree", "C13_stored_agree", "C13_ghosts", "C13_error_no_advance", "C13_genuine_refusals",
                  "C13_error_never_own_tick_refuted", "C13_no_panic", "C13_K09_panics", "C13_nonvacuous"],
     "allowed_axioms": [],
     "extract": {
@@ -22,7 +22,10 @@ SPEC = {
         "through the real crate and through the extracted model, label by label)",
         "Model/Snap.v and Model/Receiver.v with their own ties (C09-C12)",
         "the sender loop is re-implemented in the harness line by line from server/src/main.rs (main.rs is a binary, "
-        "not a library); its two unwraps and assert_i32 are part of the model as Panic sites",
+        "not a library); its two unwraps and assert_i32 are part of the model as Panic sites; tools/gen_storage.py "
+        "checks on every run that send_snapshots still makes exactly these calls in this order (and that "
+        "Input.ack_snapshot still goes to Storage::set_delta_tick with the error only logged) and translates "
+        "MAX_STORED_SNAPSHOT and the size of the delta buffer into Gen/StorageConsts.v",
         "one model gap, never reached by the theorems or the harness: after a failed Snap::read_with_delta the half "
         "written snapshot on top of Storage.free is not tracked (FDirty); new_builder on such a Storage is answered "
         "OutOfFuel by the model (a Storage is used either by a sender or inside a Manager)",
